@@ -66,6 +66,11 @@ def cases(tier, seed):
     rng.shuffle(chosen)
     for i, (rate, bs) in enumerate(chosen):
         shape = shape_for(bs, rng, cap)
+        if bs[:2] == (4, 4) and i % 3 == 1 and rate >= 1:
+            # many plane sets (more than twice the number of cores, not a multiple of it): readers split such volumes among worker threads
+            import os as _os
+            nc = _os.cpu_count() or 1
+            shape = (4 * (2 * nc + 1) - rng.choice([0, 1, 3]), rng.choice([2, 5]), min(shape[2], 9))
         src = conv.src_desc(rng, '3d', shape, ext=rng.choice([0, 0, 1, 2]), il=[rng.choice([1, 10, -5]), rng.choice([1, 2])],
                             xl=[rng.choice([1, 100]), rng.choice([1, 3])], hdr={'seed': i, 'nfields': 1, 'inside': True})
         if i % 7 == 5:
